@@ -52,6 +52,34 @@ pub fn prune_report(redeem: &Arc<RedeemNode>, env: &Env) -> J {
         }
     }
     rec["witness_typed"] = json!(wit_ok);
+    // are the pruned program's arrows the principal ones of the pruned program itself?  (rebuilt in a fresh context)
+    rec["principal"] = {
+        let (d, t, a, _) = describe(&pruned);
+        // from the description format back to the construction format
+        fn bits_of_val(v: &J, out: &mut Vec<u8>) {
+            match v[0].as_str().unwrap() {
+                "bits" => out.extend(v[2].as_array().unwrap().iter().map(|b| b.as_u64().unwrap() as u8)),
+                "L" => { if v[1][0] == "u" { out.push(0) } else { bits_of_val(&v[1], out) } }
+                "R" => { if v[1][0] == "u" { out.push(1) } else { bits_of_val(&v[1], out) } }
+                "P" => { bits_of_val(&v[1], out); bits_of_val(&v[2], out); }
+                _ => {}
+            }
+        }
+        let d = json!(d.as_array().unwrap().iter().zip(a.as_array().unwrap()).map(|(nd, ax)| match nd[0].as_str().unwrap() {
+            "leaf" => json!(["jet", 0, 0, nd[5]]),
+            "word" => { let mut b = vec![]; bits_of_val(ax, &mut b); json!(["word", 0, 0, b]) }
+            _ => nd.clone(),
+        }).collect::<Vec<J>>());
+        let n = d.as_array().unwrap().len();
+        let mut tyn = vec![J::Null; n];
+        tyn[n - 1] = t[n - 1].clone();
+        let aux0 = json!(vec![json!(["none"]); n]);
+        let fresh: Result<Vec<J>, String> = guarded(|| types::Context::with_context(|ctx| {
+            let (_, _, built) = build_typed(&ctx, Family::Elements, &d, &json!(tyn), &aux0)?;
+            Ok(built.iter().map(|b| { let a = b.arrow().finalize().unwrap(); json!([ty_cz(&a.source), ty_cz(&a.target)]) }).collect())
+        })).unwrap_or_else(|p| Err(format!("panic: {}", p)));
+        match fresh { Ok(f) => json!(json!(f) == t), Err(e) => json!(format!("unknown: {}", e)) }
+    };
     let (prog, wit) = pruned.to_vec_with_witness();
     rec["bytes"] = json!([prog.len(), wit.len()]);
     // pruning again changes nothing
@@ -86,6 +114,7 @@ pub fn replay(path: &str) {
                     Err(e) => return json!({"build_err": e}),
                 };
                 let mut rec = prune_report(&redeem, &env);
+                if std::env::var("VH_DEBUG").is_ok() { let (d, t, a, _) = describe(&redeem); rec["unpruned_prog"] = json!({"dag": d, "ty": t, "aux": a}); }
                 // the pruned program as the crate built it, for comparison with the spec's
                 if let Ok(p) = redeem.prune(&env) {
                     let (d, t, a, _) = describe(&p);
@@ -129,17 +158,28 @@ pub fn record(runs: usize, path: &str) {
     let jets: Vec<JetSig> = jet_sigs_elements().into_iter()
         .filter(|j| core_names.contains(&j.name) && j.src.size() <= 150 && j.tgt.size() <= 150).collect();
     let env = crate::env::dummy();
+    // hand-made sharing patterns, every combination of the deciding witness bits
+    let shared_case = json!([["witness", 0, 0], ["unit", 0, 0], ["pair", 1, 2], ["unit", 0, 0], ["take", 4, 0], ["unit", 0, 0], ["drop", 6, 0], ["case", 5, 7],
+        ["comp", 3, 8], ["witness", 0, 0], ["unit", 0, 0], ["pair", 10, 11], ["comp", 12, 8], ["pair", 9, 13], ["unit", 0, 0], ["comp", 14, 15]]);
+    let shared_witness = json!([["witness", 0, 0], ["unit", 0, 0], ["pair", 1, 2], ["witness", 0, 0], ["unit", 0, 0], ["comp", 4, 5], ["drop", 6, 0], ["unit", 0, 0], ["pair", 4, 8],
+        ["unit", 0, 0], ["take", 10, 0], ["unit", 0, 0], ["drop", 12, 0], ["case", 11, 13], ["comp", 9, 14], ["drop", 15, 0], ["case", 7, 16], ["comp", 3, 17]]);
+    let mut hand: Vec<(J, Vec<(usize, J)>)> = vec![];
+    for a in ["L", "R"] { for b in ["L", "R"] {
+        hand.push((shared_case.clone(), vec![(0, json!([a, ["u"]])), (9, json!([b, ["u"]]))]));
+        hand.push((shared_witness.clone(), vec![(0, json!([a, ["u"]])), (3, json!([b, ["u"]]))]));
+    } }
     let mut done = 0;
     let mut attempts = 0;
-    while done < runs && attempts < runs * 40 {
+    while done < runs + hand.len() && attempts < runs * 40 {
         attempts += 1;
         let budget = rng.range(6, 40);
-        let dag = {
+        let (dag, fixed) = if attempts <= hand.len() { hand[attempts - 1].clone() } else { ({
             let mut g = Gen::new(&mut rng, &jets, budget);
             g.allow_disconnect = attempts % 4 == 0;
+            g.share_witness = attempts % 3 == 0;
             let root = g.expr(&Ty::Unit, &Ty::Unit, 8);
             g.finish(root)
-        };
+        }, vec![]) };
         let n = dag.as_array().unwrap().len();
         if !dag.as_array().unwrap().iter().any(|x| x[0] == "case") { continue; }
         let mut ty = vec![J::Null; n];
@@ -156,6 +196,7 @@ pub fn record(runs: usize, path: &str) {
         for (i, nd) in dag.as_array().unwrap().iter().enumerate() {
             if nd[0] == "witness" { auxv[i] = Ty::from_final(&ty_of(&full_ty[i][1])).rand_val(&mut rng); }
         }
+        for (i, v) in fixed.iter() { auxv[*i] = v.clone(); }
         let ev = guarded(|| {
             types::Context::with_context(|ctx| {
                 let (redeem, _, _) = match build_typed(&ctx, Family::Elements, &dag, &json!(full_ty), &json!(auxv)) {
